@@ -1,8 +1,9 @@
 /-
   C19 — stochastic space assignment never loses, duplicates or starves a session.
 
-  Property theorems only (helpers: AcnProofs/Lemmas/Stochastic*.lean).  Every theorem is about
-  a state `s` REACHED by the model of `StochasticNetwork` inside the simulator's event loop:
+  Property theorems only (helpers: AcnProofs/Lemmas/Stochastic*.lean).  The state theorems take
+  `Good s hist` (invariant + flags agree with the processed history `hist`), which holds
+  (`reached_inv`) in every state `s` REACHED by the model of `StochasticNetwork` inside the simulator's event loop:
   from the empty network over any duplicate-free list of stations, after ANY list of steps
   (events interleaved arbitrarily with `post_charging_update` calls, any `fully_charged`
   inputs, early departure on or off) whose events form a well-formed history, under ANY stream
@@ -15,6 +16,7 @@ import AcnProofs.Lemmas.StochasticProto
 import AcnProofs.Lemmas.StochasticDet
 import AcnProofs.Lemmas.StochasticStarve
 import AcnProofs.Lemmas.StochasticEventCore
+import AcnProofs.Lemmas.StochasticLoopInst
 
 namespace Acn.C19
 open Acn Acn.Stoch
@@ -30,7 +32,13 @@ def Reached (s : Net) (hist : List Event) : Prop :=
 def Present (s : Net) (x : Sess) : Prop :=
   (s.ev x).arrived = true ∧ (s.ev x).departed = false ∧ (s.ev x).early = false
 
-theorem reached_inv {s : Net} {hist : List Event} (h : Reached s hist) : Inv s ∧ Track hist s := by
+/-- what every theorem below needs of a state: the invariant of the network model (`Inv`,
+    AcnProofs/Lemmas/StochasticInv.lean) and the ghost flags agreeing with the processed events.
+    It holds in every `Reached` state (`reached_inv`) and at every loop head of the composed run
+    loop (`end_to_end`). -/
+def Good (s : Net) (hist : List Event) : Prop := Inv s ∧ Track hist s
+
+theorem reached_inv {s : Net} {hist : List Event} (h : Reached s hist) : Good s hist := by
   obtain ⟨stations, early, st0, cs, steps, hn, hwf, hp, hr⟩ := h
   obtain ⟨s', hs', hi, tr⟩ := run_good cs steps [] _ (Inv.init stations early st0 hn)
     (Track.init stations early st0) (by simpa [hp] using hwf)
@@ -84,14 +92,14 @@ example : ∃ s, Reached s [⟨0, .plugin, "b"⟩, ⟨0, .plugin, "a"⟩, ⟨1, 
 /-- Every present EV is in exactly one place — on exactly one station or in the waiting queue,
     never both; no station holds two EVs (an EV occupies at most one station); no EV is twice
     in the queue; and only present EVs are anywhere. -/
-theorem place_unique {s : Net} {hist : List Event} (h : Reached s hist) :
+theorem place_unique {s : Net} {hist : List Event} (h : Good s hist) :
     (∀ x, Present s x →
       (x ∈ s.waiting ∧ ∀ st, s.occ st ≠ some x) ∨
       (x ∉ s.waiting ∧ ∃ st, st ∈ s.stations ∧ s.occ st = some x ∧ ∀ st', s.occ st' = some x → st' = st)) ∧
     (∀ st st' x, s.occ st = some x → s.occ st' = some x → st = st') ∧
     s.waiting.Nodup ∧
     (∀ x, (x ∈ s.waiting ∨ ∃ st, s.occ st = some x) → Present s x) := by
-  obtain ⟨hi, _⟩ := reached_inv h
+  obtain ⟨hi, _⟩ := h
   have hw := hi.mem_waiting
   have ho := hi.occ_iff
   refine ⟨?_, ?_, hi.waiting_nodup, ?_⟩
@@ -123,9 +131,9 @@ theorem place_unique {s : Net} {hist : List Event} (h : Reached s hist) :
 
 /-- Nobody waits while a station is free — after every step of every history, in particular
     after each unplug and each early departure (where the code re-admits). -/
-theorem no_wait_while_free {s : Net} {hist : List Event} (h : Reached s hist)
+theorem no_wait_while_free {s : Net} {hist : List Event} (h : Good s hist)
     (hw : s.waiting ≠ []) : s.free = [] := by
-  obtain ⟨hi, _⟩ := reached_inv h
+  obtain ⟨hi, _⟩ := h
   simp only [Net.free, List.filter_eq_nil_iff]
   intro st hst
   have := hi.no_wait_free hw st hst
@@ -138,12 +146,12 @@ theorem no_wait_while_free {s : Net} {hist : List Event} (h : Reached s hist)
     queue keeps its order.  (Nobody else is ever admitted from the queue: `plugin` only
     appends, and arrivals find a free station only when the queue is empty, by
     `no_wait_while_free`.) -/
-theorem fifo_admission {s : Net} {hist : List Event} (h : Reached s hist) :
+theorem fifo_admission {s : Net} {hist : List Event} (h : Good s hist) :
     s.waiting = s.arrivals.filter s.waits ∧
     ∀ x y w st, s.occ st = some x → s.waiting = y :: w →
       ∃ s1, s.unplug (s.ev x).station x = .ok s1 ∧ s1.waiting = w ∧ s1.occ st = some y ∧
         (s1.ev y).station = some st ∧ s1.swaps = s.swaps + 1 := by
-  obtain ⟨hi, _⟩ := reached_inv h
+  obtain ⟨hi, _⟩ := h
   refine ⟨hi.fifo, ?_⟩
   intro x y w st ho hwq
   refine ⟨_, hi.unplug_swap x y w st ho hwq, rfl, by simp, by simp, rfl⟩
@@ -151,11 +159,11 @@ theorem fifo_admission {s : Net} {hist : List Event} (h : Reached s hist) :
 /-- For an EV whose unplug event is still to come, `station_id is None` exactly when it is in
     the waiting queue, and otherwise its station id is a registered station: so the simulator's
     `unplug(ev.station_id, ev.session_id)` never reaches the `KeyError` branch (see `no_error`). -/
-theorem waiting_iff_station_none {s : Net} {hist : List Event} (h : Reached s hist) (x : Sess)
+theorem waiting_iff_station_none {s : Net} {hist : List Event} (h : Good s hist) (x : Sess)
     (ha : (s.ev x).arrived = true) (hd : (s.ev x).departed = false) :
     (x ∈ s.waiting ↔ (s.ev x).station = none) ∧
     (∀ st, (s.ev x).station = some st → st ∈ s.stations) := by
-  obtain ⟨hi, _⟩ := reached_inv h
+  obtain ⟨hi, _⟩ := h
   refine ⟨⟨fun hx => ((hi.mem_waiting x).1 hx).2.2, fun hst => (hi.mem_waiting x).2 ⟨ha, hd, hst⟩⟩,
     fun st hst => hi.st_mem x st ha hst⟩
 
@@ -163,7 +171,7 @@ theorem waiting_iff_station_none {s : Net} {hist : List Event} (h : Reached s hi
     departed without ever having been attached to a station (i.e. that left from the queue);
     `swaps` = EVs that were queued and later got a station; `early_unplug` = EVs unplugged by
     post_charging_update; and the number of random draws = arrivals that were not queued. -/
-theorem never_charged_counts {s : Net} {hist : List Event} (h : Reached s hist) :
+theorem never_charged_counts {s : Net} {hist : List Event} (h : Good s hist) :
     s.neverCharged = s.arrivals.countP (fun x => (s.ev x).departed && !(s.ev x).plugged) ∧
     s.swaps = s.arrivals.countP (fun x => (s.ev x).queued && (s.ev x).plugged) ∧
     s.earlyUnplug = s.arrivals.countP (fun x => (s.ev x).early) ∧
@@ -171,7 +179,7 @@ theorem never_charged_counts {s : Net} {hist : List Event} (h : Reached s hist) 
     s.arrivals.Nodup ∧
     (∀ x, x ∈ s.arrivals ↔ ∃ e ∈ hist, e.kind = .plugin ∧ e.sess = x) ∧
     (∀ x, (s.ev x).plugged = false ↔ ((s.ev x).arrived = false ∨ (s.ev x).station = none)) := by
-  obtain ⟨hi, tr⟩ := reached_inv h
+  obtain ⟨hi, tr⟩ := h
   refine ⟨hi.never_eq, hi.swaps_eq, hi.early_eq, hi.draws_eq, hi.arr_nodup,
     fun x => (hi.arr_iff x).trans (tr.arrived_iff x), fun x => ?_⟩
   have := hi.plugged_iff x
@@ -180,10 +188,10 @@ theorem never_charged_counts {s : Net} {hist : List Event} (h : Reached s hist) 
 
 /-- When every plugged-in session of the history has also been unplugged (the end of a run),
     no station is occupied and nobody waits. -/
-theorem all_gone_at_end {s : Net} {hist : List Event} (h : Reached s hist)
+theorem all_gone_at_end {s : Net} {hist : List Event} (h : Good s hist)
     (hall : ∀ e ∈ hist, e.kind = .plugin → ∃ u ∈ hist, u.kind = .unplug ∧ u.sess = e.sess) :
     s.waiting = [] ∧ ∀ st, s.occ st = none := by
-  obtain ⟨hi, tr⟩ := reached_inv h
+  obtain ⟨hi, tr⟩ := h
   have gone : ∀ x, (s.ev x).arrived = true → (s.ev x).departed = true := by
     intro x ha
     obtain ⟨e, he, hk, hs⟩ := (tr.arrived_iff x).1 ha
@@ -203,9 +211,9 @@ theorem all_gone_at_end {s : Net} {hist : List Event} (h : Reached s hist)
 
 /-- The later unplug event of an EV that already left early changes nothing in the network
     (whether its old station is empty or meanwhile taken by somebody else). -/
-theorem stale_unplug_noop {s : Net} {hist : List Event} (h : Reached s hist) (x : Sess)
+theorem stale_unplug_noop {s : Net} {hist : List Event} (h : Good s hist) (x : Sess)
     (he : (s.ev x).early = true) : s.unplug (s.ev x).station x = .ok s := by
-  obtain ⟨hi, _⟩ := reached_inv h
+  obtain ⟨hi, _⟩ := h
   obtain ⟨ha, hsome⟩ := hi.early_imp x he
   have hxw : x ∉ s.waiting := by
     intro hc; have := ((hi.mem_waiting x).1 hc).2.2; rw [this] at hsome; simp at hsome
@@ -246,13 +254,13 @@ example : ∃ cs cs' : Nat → Nat, cs ≠ cs' ∧ ∀ k, 0 ≤ k → k < 2 → 
     (`vacCount`: unplug events of EVs that hold a station, and early departures).  (2) So after
     `i + 1` vacating events `y` is no longer waiting; and if its own unplug event is not among
     the steps (it did not depart first), it has been attached to a station. -/
-theorem starvation_free {s s' : Net} {hist : List Event} (h : Reached s hist) (cs : Nat → Nat)
+theorem starvation_free {s s' : Net} {hist : List Event} (h : Good s hist) (cs : Nat → Nat)
     (steps : List Step) (hwf : WFHist (hist ++ evProj steps)) (y : Sess) (hy : y ∈ s.waiting)
     (hrun : s.run cs steps = .ok s') :
     (y ∈ s'.waiting → s'.waiting.idxOf y + vacCount cs s steps ≤ s.waiting.idxOf y) ∧
     (s.waiting.idxOf y + 1 ≤ vacCount cs s steps → y ∉ s'.waiting ∧
       ((∀ e ∈ evProj steps, ¬(e.kind = .unplug ∧ e.sess = y)) → (s'.ev y).plugged = true)) := by
-  obtain ⟨hi, tr⟩ := reached_inv h
+  obtain ⟨hi, tr⟩ := h
   have hadv := run_advance cs y steps hist s s' hi tr hwf hy hrun
   refine ⟨hadv, fun hv => ?_⟩
   have hnw : y ∉ s'.waiting := fun hc => by have := hadv hc; omega
@@ -302,7 +310,7 @@ theorem all_gone_after_horizon (ss : List Session) (h : List Event) (hw : wellFo
       right
       have := hts a (by simp); have := hpos a (by simp); omega
   rw [hev h0 hts] at hreach
-  exact ⟨s, hs, all_gone_at_end hreach (wellFormedB_complete hw)⟩
+  exact ⟨s, hs, all_gone_at_end (reached_inv hreach) (wellFormedB_complete hw)⟩
 
 /-- Tie to C01: what `Acn.C01.history_sorted` / `history_complete` prove about `event_history`
     of the event loop (key-sorted; a permutation of the scenario's plug-in, unplug and recompute
@@ -320,5 +328,85 @@ example : WFHist [⟨0, .plugin, "a"⟩, ⟨0, .recompute, "r"⟩, ⟨1, .plugin
   eventCore_history_wellFormed
     { stations := ["S"], sessions := [⟨"a", "S", 0, 2⟩, ⟨"b", "S", 1, 2⟩], recomputes := [(0, "r")],
       maxRecompute := none } _ (by decide) (by decide) (by decide) (by decide)
+
+/-! ### end to end: the whole run loop, real heap tie order, stochastic network -/
+
+open Acn.EventCore in
+/-- END TO END.  For every scenario with distinct session ids and `0 ≤ arrival < departure`
+    (`ValidQ`: no pre-assigned-station clauses), duplicate-free stations, every choice stream
+    `cs`, every `fully_charged` input, early departure on or off, any scheduler / pilot
+    application that does not raise: the run loop of `Simulator.run` — sim-core's `runG` with
+    CPython's array heap `heapQ` (the REAL order among equal-key events) and the StochasticNetwork
+    model, `post_charging_update` once per period (`runGP`) — after ANY number `n` of iterations
+    (i.e. at every loop head, and at the end)
+      * has raised nothing; the iteration counter is `min n horizon`;
+      * the network state is `Good` for the `event_history` so far, so `place_unique`,
+        `no_wait_while_free`, `fifo_admission`, `waiting_iff_station_none`,
+        `never_charged_counts`, `stale_unplug_noop` apply verbatim (spelled out in
+        `end_to_end_properties`); the history is key-sorted;
+      * once `n ≥ horizon`: the queue is empty, the loop has stopped at `horizon`, every
+        plugged-in session has been unplugged, nobody waits and no station is occupied. -/
+theorem end_to_end (cfg : Cfg) (hq : ValidQ cfg) (hst : cfg.stations.Nodup) (early : Bool)
+    (cs : Nat → Nat) (full : Nat → Sess → Bool) {sched apply : CoreG Net → Option EventCore.Err}
+    (hs : ∀ g, sched g = none) (ha : ∀ g, apply g = none) (n : Nat) :
+    ∃ g, runGP heapQ (stochasticNet cs) (stochasticPost full) cfg sched apply n
+        (initG heapQ cfg (net0 cfg early)) = (g, none) ∧
+      g.core.iter = min n (EventCore.horizon cfg) ∧
+      Good g.net g.core.eventHist ∧
+      g.core.eventHist.Pairwise (fun a b => a.keyLe b = true) ∧
+      (EventCore.horizon cfg ≤ n →
+        g.core.pending = [] ∧ g.core.resolve = false ∧
+        (∀ e ∈ g.core.eventHist, e.kind = .plugin →
+          ∃ u ∈ g.core.eventHist, u.kind = .unplug ∧ u.sess = e.sess) ∧
+        g.net.waiting = [] ∧ ∀ st, g.net.occ st = none) := by
+  obtain ⟨h0, g0⟩ := initG_inv (σ := Net) hq heapQ_ok (net0 cfg early)
+  obtain ⟨g, hr, hI, hP⟩ := runGP_spec hq heapQ_ok (stochastic_noFail cfg hq cs full) hs ha n 0
+    (initG heapQ cfg (net0 cfg early)) h0 g0 (loopInv_init cfg hst early) (Nat.zero_le _)
+  have hgood : Good g.net g.core.eventHist := ⟨hP.inv, hP.track⟩
+  refine ⟨g, hr, by simpa using hI.iter, hgood, hI.hist_sorted, fun hn => ?_⟩
+  rw [Nat.zero_add, Nat.min_eq_right hn] at hI
+  have hp : g.core.pending = [] := by
+    by_contra h
+    exact absurd ((pendingG_ne_nil_iff hq hI).1 h) (lt_irrefl _)
+  have hall := hist_complete_at_horizon hq hI
+  exact ⟨hp, hI.resolve, hall, all_gone_at_end hgood hall⟩
+
+open Acn.EventCore in
+/-- the C19 conclusions at every loop head of the composed run loop, spelled out -/
+theorem end_to_end_properties (cfg : Cfg) (hq : ValidQ cfg) (hst : cfg.stations.Nodup) (early : Bool)
+    (cs : Nat → Nat) (full : Nat → Sess → Bool) {sched apply : CoreG Net → Option EventCore.Err}
+    (hs : ∀ g, sched g = none) (ha : ∀ g, apply g = none) (n : Nat) :
+    ∃ g, runGP heapQ (stochasticNet cs) (stochasticPost full) cfg sched apply n
+        (initG heapQ cfg (net0 cfg early)) = (g, none) ∧
+      -- no station holds an EV that is elsewhere; nobody queued twice; nobody queued AND plugged
+      (∀ st st' x, g.net.occ st = some x → g.net.occ st' = some x → st = st') ∧
+      g.net.waiting.Nodup ∧
+      (∀ x, x ∈ g.net.waiting → ∀ st, g.net.occ st ≠ some x) ∧
+      -- every present EV is somewhere
+      (∀ x, Present g.net x → x ∈ g.net.waiting ∨ ∃ st ∈ g.net.stations, g.net.occ st = some x) ∧
+      -- nobody waits while a station is free; the queue is in arrival order
+      (g.net.waiting ≠ [] → g.net.free = []) ∧
+      g.net.waiting = g.net.arrivals.filter g.net.waits ∧
+      -- the counter counts the EVs that departed without ever being attached
+      g.net.neverCharged =
+        g.net.arrivals.countP (fun x => (g.net.ev x).departed && !(g.net.ev x).plugged) := by
+  obtain ⟨g, hr, _, hgood, _, _⟩ := end_to_end cfg hq hst early cs full hs ha n
+  obtain ⟨hpu1, hpu2, hpu3, hpu4⟩ := place_unique hgood
+  refine ⟨g, hr, hpu2, hpu3, ?_, ?_, no_wait_while_free hgood, (fifo_admission hgood).1,
+    (never_charged_counts hgood).1⟩
+  · intro x hx st hc
+    rcases hpu1 x (hpu4 x (Or.inl hx)) with ⟨_, h2⟩ | ⟨h1, _⟩
+    · exact h2 st hc
+    · exact h1 hx
+  · intro x hx
+    rcases hpu1 x hx with ⟨h1, _⟩ | ⟨_, st, hm, ho, _⟩
+    · exact Or.inl h1
+    · exact Or.inr ⟨st, hm, ho⟩
+
+/-- the hypotheses are satisfiable: three overlapping sessions, all pre-assigned to the one station -/
+example : EventCore.ValidQ
+    { stations := ["S0"], sessions := [⟨"a", "S0", 0, 4⟩, ⟨"b", "S0", 1, 3⟩, ⟨"c", "S0", 1, 4⟩],
+      recomputes := [(1, "r0")], maxRecompute := none } := by
+  constructor <;> simp
 
 end Acn.C19
